@@ -27,18 +27,19 @@ PadOf(z) == {[kind |-> "pad", z |-> z, v |-> v, a |-> a, b |-> b] : v \in {1, 3}
 NumOf(z) == {[kind |-> "num", z |-> z, v |-> v] : v \in 1..4}
 LabelOf(z) == {[kind |-> "label", z |-> z, v |-> v, a |-> a, b |-> b] : v \in 1..4, a \in DOMAIN DigitRuns, b \in DOMAIN Suffixes}
 BadLongOf(z) == {[kind |-> "badlong", z |-> z, v |-> v, a |-> a] : v \in {1, 2, 3}, a \in DOMAIN LongTails}
+PrefixedOf(z) == {[kind |-> "prefixed", z |-> z, v |-> v, a |-> a, b |-> b] : v \in {1, 3}, a \in {x \in DOMAIN LeadJunk : (x + z) % 3 = 0}, b \in DOMAIN JunkTails}
 BadOf(c) == {[kind |-> "bad", c |-> c, v |-> v, a |-> a, b |-> b] : v \in {1, 2, 3}, a \in {0, 1, 2}, b \in {1, 2, 3}}
 Keys == NumZ \cup {1000 + 27 * c[1] + c[2] : c \in {x \in BadCodes : (x[1] * 27 + x[2]) % BadStride = 0}}
 SpOfKey(k) == IF k >= 1000 THEN BadOf(<<(k - 1000) \div 27, (k - 1000) % 27>>)
-              ELSE IF k \in ElementZ THEN SymOf(k) \cup PadOf(k) \cup NumOf(k) \cup LabelOf(k) \cup BadLongOf(k) ELSE NumOf(k)
+              ELSE IF k \in ElementZ THEN SymOf(k) \cup PadOf(k) \cup NumOf(k) \cup LabelOf(k) \cup BadLongOf(k) \cup PrefixedOf(k) ELSE NumOf(k)
 SymSp == UNION {SymOf(z) : z \in ElementZ}
 LabelCore == UNION {{[kind |-> "label", z |-> z, v |-> v, a |-> 1, b |-> b] : v \in 1..4, b \in {1, 2}} : z \in ElementZ}
 
 Line(s) ==
   LET z == IF s.kind = "bad" THEN 0 ELSE s.z
       c == IF s.kind = "bad" THEN s.c ELSE <<0, 0>>
-      a == IF s.kind \in {"pad", "label", "bad", "badlong"} THEN s.a ELSE 0
-      b == IF s.kind \in {"pad", "label", "bad"} THEN s.b ELSE 0
+      a == IF s.kind \in {"pad", "label", "bad", "badlong", "prefixed"} THEN s.a ELSE 0
+      b == IF s.kind \in {"pad", "label", "bad", "prefixed"} THEN s.b ELSE 0
   IN "S|" \o s.kind \o "|" \o ToString(z) \o "|" \o ToString(c[1]) \o "|" \o ToString(c[2]) \o "|" \o ToString(s.v)
         \o "|" \o ToString(a) \o "|" \o ToString(b) \o "|" \o SpellingText(s)
 
